@@ -727,18 +727,28 @@ func runTrial(r *vlib.Run, mode string, trial int, rng *rand.Rand) {
 	// ONCE and POLL calls of the churn phase end on their own.
 	unfinished := map[int]bool{}
 	waitDone := func(list []*sub) {
-		limit := time.After(30 * time.Second)
+		limit, cancelLimit := context.WithTimeout(context.Background(), 30*time.Second)
+		defer cancelLimit()
 		for _, s := range list {
 			if s.streaming() && expectLive(s) {
 				continue
 			}
 			// Everything else must end without the harness' help: ONCE, POLL after
-			// the request stream ended, and every rejected call.
-			select {
-			case <-s.done:
-			case <-limit:
+			// the request stream ended, and every rejected call. A call that has to
+			// be rejected silently is decided as soon as it has sent anything.
+			mustBeSilent := !expectLive(s) && (tc.class(s) == "unauthenticated" || tc.class(s) == "denied-single")
+			ctx, cancel := context.WithCancel(limit)
+			go func() {
+				select {
+				case <-s.done:
+					cancel()
+				case <-ctx.Done():
+				}
+			}()
+			s.stream.WaitSent(ctx, func(sent []*pb.SubscribeResponse) bool { return mustBeSilent && len(sent) > 0 })
+			cancel()
+			if !s.isDone() {
 				unfinished[s.idx] = true
-				limit = time.After(time.Millisecond)
 			}
 		}
 	}
